@@ -37,7 +37,7 @@ _SUITE_REQUIRED = ['suite:pack_checks', 'suite:unpack_checks']
 
 
 def REQUIRED(tier):
-    return _required(tier) + (_SUITE_REQUIRED if tier == "thorough" else [])
+    return _required(tier) + (_SUITE_REQUIRED + ["giant_calls"] if tier == "thorough" else [])
 
 
 def _required(tier):
@@ -59,6 +59,36 @@ def cases(tier, seed):
     yield {"kind": "reject"}
     for nbits in (1, 2, 4):
         yield {"kind": "default", "nbits": nbits, "seed": seed}
+    if tier == "thorough":
+        yield {"kind": "giant", "seed": seed}
+
+
+def _giant(case, ctx):
+    """One call on more than 2**31 unpacked samples (a 256 MiB block of 1-bit data read at once): sample offsets beyond a 32-bit index."""
+    from sigpyproc.io import bits
+
+    rng = np.random.default_rng([case["seed"], 31])
+    nbytes = (1 << 28) + 4096
+    raw = rng.integers(0, 256, size=nbytes, dtype=np.uint8)
+    for order in ("little", "big"):
+        ctx.evaluated(); ctx.count("giant_calls")
+        out = bits.unpack(raw, 1, bitorder=order)
+        one = dict(case, order=order)
+        if out.size != nbytes * 8:
+            ctx.violation("giant:unpack-size", f"{out.size} samples for {nbytes} bytes", one)
+            return
+        for lo in (0, (1 << 28) - 2048, nbytes - 4096, int(rng.integers(0, nbytes - 4096))):   # windows before, across and after sample 2**31
+            want = sigfile.unpack_bits(raw[lo : lo + 4096], 1, order)
+            if not np.array_equal(out[lo * 8 : (lo + 4096) * 8], want):
+                ctx.violation(f"giant:unpack-values:{order}", f"samples of bytes [{lo},{lo + 4096}) of a {nbytes}-byte block differ from the definition (sample index {lo * 8} .. )", one)
+                return
+        back = bits.pack(out, 1, bitorder=order)
+        if back.size != nbytes or not np.array_equal(back, raw):
+            bad = int(np.flatnonzero(back != raw)[0]) if back.size == nbytes else -1
+            ctx.violation(f"giant:pack-values:{order}", f"pack(unpack(block)) differs from the block first at byte {bad} of {nbytes}", one)
+            return
+        del out, back
+        ctx.nontrivial_case(one)
 
 
 def cases_boundscheck(tier, seed):
@@ -119,6 +149,14 @@ def _audit(ctx, frame, case, what):
 
 
 def run_case(case, ctx):
+    if case["kind"] == "giant":
+        if getattr(ctx, "mode", "normal") == "normal":
+            _giant(case, ctx)
+        return
+    _run_case(case, ctx)
+
+
+def _run_case(case, ctx):
     from sigpyproc.io import bits
 
     kind = case["kind"]
@@ -265,6 +303,14 @@ def run_case(case, ctx):
             table.append(("nbits", lambda f, nb=nb: f(good.copy(), nb, bitorder="big")))
         for bo in ("", "x", None, "middle"):
             table.append(("bitorder", lambda f, bo=bo: f(good.copy(), 1, bitorder=bo)))
+        # the same bad arguments with a zero-length array (an empty read at the end of a stream): validation does not depend on the length
+        empty = np.zeros(0, dtype=np.uint8)
+        for nb in (0, 3, 8):
+            table.append(("nbits[empty-input]", lambda f, nb=nb: f(empty.copy(), nb, bitorder="big")))
+        for bo in ("", "middle"):
+            table.append(("bitorder[empty-input]", lambda f, bo=bo: f(empty.copy(), 1, bitorder=bo)))
+        for dt in (np.float32, np.int16):
+            table.append(("dtype[empty-input]", lambda f, dt=dt: f(np.zeros(0, dtype=dt), 1, bitorder="big")))
         for name, call in table:
             for fn in (bits.unpack, bits.pack):
                 ctx.evaluated()
